@@ -121,7 +121,7 @@ def run(rep, tier, seed, rng):
     laze = core.build_impl(); driver = core.build_model()
     nproj = 200 if tier == "quick" else 2500
     pairs = []
-    pool = [c for c in directed.cases()]
+    pool = [c for c in directed.cases_portable()]
     for k in range(nproj):
         f, c = pool[k] if k < len(pool) else genproj.gen_project(rng, focus=rng.choice([None, "layout", "env"]))
         v = inline_defaults(f)
